@@ -1,4 +1,9 @@
-use core::{ops::Index, slice::SliceIndex};
+use core::{
+    convert::TryFrom,
+    fmt,
+    ops::{Deref, Index},
+    slice::SliceIndex,
+};
 use tinyvec::ArrayVec;
 use zeroize::DefaultIsZeroes;
 
@@ -46,5 +51,73 @@ where
     #[inline]
     pub fn as_mut_slice(&mut self) -> &mut [T] {
         self.0.as_mut_slice()
+    }
+}
+
+/// Fixed-capacity byte buffer for complete HSS signatures.
+///
+/// `tinyvec::ArrayVec` stores its length as `u16`, but an HSS signature with seven or eight
+/// levels of `LmotsW1` is longer than `u16::MAX` bytes.
+#[derive(Clone)]
+pub struct ByteBuffer<const N: usize> {
+    data: [u8; N],
+    len: usize,
+}
+
+impl<const N: usize> ByteBuffer<N> {
+    pub fn new() -> Self {
+        Self {
+            data: [0u8; N],
+            len: 0,
+        }
+    }
+
+    pub fn extend_from_slice(&mut self, slice: &[u8]) {
+        let end = self.len + slice.len();
+        self.data[self.len..end].copy_from_slice(slice);
+        self.len = end;
+    }
+
+    pub fn as_slice(&self) -> &[u8] {
+        &self.data[..self.len]
+    }
+}
+
+impl<const N: usize> Default for ByteBuffer<N> {
+    fn default() -> Self {
+        Self::new()
+    }
+}
+
+impl<const N: usize> Deref for ByteBuffer<N> {
+    type Target = [u8];
+
+    fn deref(&self) -> &[u8] {
+        self.as_slice()
+    }
+}
+
+impl<const N: usize> AsRef<[u8]> for ByteBuffer<N> {
+    fn as_ref(&self) -> &[u8] {
+        self.as_slice()
+    }
+}
+
+impl<const N: usize> fmt::Debug for ByteBuffer<N> {
+    fn fmt(&self, f: &mut fmt::Formatter<'_>) -> fmt::Result {
+        self.as_slice().fmt(f)
+    }
+}
+
+impl<const N: usize> TryFrom<&[u8]> for ByteBuffer<N> {
+    type Error = ();
+
+    fn try_from(slice: &[u8]) -> Result<Self, Self::Error> {
+        if slice.len() > N {
+            return Err(());
+        }
+        let mut result = Self::new();
+        result.extend_from_slice(slice);
+        Ok(result)
     }
 }
